@@ -289,10 +289,12 @@ theorem scan_ppause {d : List Rev} {i : Nat} (h : Write.ppause i ∈ (scan d).1)
     · split at h
       · simp at h
       · rename_i p ps
-        simp only [List.mem_append] at h
-        rcases h with h | h
-        · exact ⟨p, List.mem_cons_of_mem _ List.mem_cons_self, pairIter_ppause h⟩
-        · obtain ⟨o, ho, h'⟩ := ih h; exact ⟨o, List.mem_cons_of_mem _ ho, h'⟩
+        split at h
+        · simp at h
+        · simp only [List.mem_append] at h
+          rcases h with h | h
+          · exact ⟨p, List.mem_cons_of_mem _ List.mem_cons_self, pairIter_ppause h⟩
+          · obtain ⟨o, ho, h'⟩ := ih h; exact ⟨o, List.mem_cons_of_mem _ ho, h'⟩
 
 /-- A parent-pause write of the archive reconciler (`ensurePaused` on an object that still carries
 the annotation) is addressed to a revision that carries the annotation. -/
@@ -307,9 +309,11 @@ theorem reconcile_ppause {prev : List Rev} {c : Rev} {limit : Option Int} {fin :
   simp only [reconcile] at h
   split at h
   · exact hscan h
-  · rcases List.mem_append.mp h with h | h
+  · split at h
     · exact hscan h
-    · rcases markLoop_other h with ⟨_, e⟩ | ⟨_, e⟩ <;> cases e
+    · rcases List.mem_append.mp h with h | h
+      · exact hscan h
+      · rcases markLoop_other h with ⟨_, e⟩ | ⟨_, e⟩ <;> cases e
 
 theorem reconcile_no_activate {prev : List Rev} {cur : Option Rev} {limit : Option Int} {fin : Bool}
     {i : Nat} : Write.activate i ∉ (reconcile prev cur limit fin).1 := by
@@ -320,9 +324,11 @@ theorem reconcile_no_activate {prev : List Rev} {cur : Option Rev} {limit : Opti
     simp only [reconcile] at h
     split at h
     · exact absurd (scan_writes h) (by simp [IsPause])
-    · rcases List.mem_append.mp h with h | h
+    · split at h
       · exact absurd (scan_writes h) (by simp [IsPause])
-      · rcases markLoop_other h with ⟨_, e⟩ | ⟨_, e⟩ <;> cases e
+      · rcases List.mem_append.mp h with h | h
+        · exact absurd (scan_writes h) (by simp [IsPause])
+        · rcases markLoop_other h with ⟨_, e⟩ | ⟨_, e⟩ <;> cases e
 
 /-! ## shape of a pass that is not gated -/
 
@@ -433,7 +439,7 @@ theorem step_inv {s : State} (op : Op) (h : Inv s) : Inv (step s op) := by
     simp only [step]
     rw [applyWs_eq]
     exact inv_of_filterMap (fun r q e => applyTo_id e) h
-  | new rev0 av sp co obj =>
+  | new rev0 av sp co obj sl sm =>
     simp only [step]
     constructor
     · simp only [List.map_append, List.map_map, List.map_cons, List.map_nil]
